@@ -58,7 +58,8 @@ def prop(pid, **kw):
 
 
 prop("C01",
-     scripts=lambda tier, rnd: S.basic() + S.collision() + S.stop_points() + S.reaction_table() +
+     scripts=lambda tier, rnd: S.basic() + S.collision() + S.stop_points() + S.reaction_table() + S.gated() +
+     sample(S.pacing(), rnd, 200 if tier == "thorough" else 30) + S.collision_racy(rnd, 60 if tier == "thorough" else 10) +
      (S.damping() + S.writers() + S.registry(rnd, 120) if tier == "thorough" else sample(S.damping(), rnd, 10)),
      mc=lambda tier: [mc_pair(["openLo", "ka"])] if tier == "quick" else
      [mc_pair(["openLo", "ka", "upd"], dials=2), mc_pair(["openHi", "ka", "cease"], dials=2),
@@ -69,7 +70,8 @@ prop("C01",
           "code; non-trivial = the recorded trace contains at least one OnEstablished callback; distinct by script content hash")
 
 prop("C07",
-     scripts=lambda tier, rnd: S.collision() + (S.collision_racy(rnd, 60 if tier == "thorough" else 8)),
+     scripts=lambda tier, rnd: S.collision() + [x for x in S.gated() if "collision" in x["tags"]] +
+     (S.collision_racy(rnd, 60 if tier == "thorough" else 8)),
      mc=lambda tier: [mc_pair(["openLo", "ka"])] if tier == "quick" else
      [mc_pair(["openLo", "ka", "cease"], dials=2), mc_pair(["openHi", "ka", "cease"], dials=2),
       mc_pair(["openLo", "openHi", "ka"], dials=1)],
@@ -88,7 +90,7 @@ prop("C09",
           "probe; non-trivial = the script reached the cell's state and delivered the message")
 
 prop("C10",
-     scripts=lambda tier, rnd: S.stop_points() + S.stop_dial_race(12 if tier == "thorough" else 3) +
+     scripts=lambda tier, rnd: S.stop_points() + S.gated() + S.stop_dial_race(12 if tier == "thorough" else 3) +
      S.stop_everywhere(rnd, 400 if tier == "thorough" else 60),
      mc=lambda tier: [mc_pair(["openLo", "ka"])] if tier == "quick" else
      [mc_pair(["openLo", "ka", "upd"], dials=2), mc_pair(["openHi", "ka", "notif"], dials=2)],
@@ -99,7 +101,8 @@ prop("C10",
           "the end of every script; non-trivial = a Close or DeletePeer returned in the trace")
 
 prop("C12",
-     scripts=lambda tier, rnd: S.damping() + (S.damping_random(rnd, 150) if tier == "thorough" else S.damping_random(rnd, 15)),
+     scripts=lambda tier, rnd: S.damping() + S.damping_exact() + S.collision_racy(rnd, 40 if tier == "thorough" else 12) +
+     (S.damping_random(rnd, 150) if tier == "thorough" else S.damping_random(rnd, 15)),
      mc=lambda tier: [mc_pair(["openLo", "ka", "notif"])] if tier == "quick" else
      [mc_pair(["openLo", "ka", "notif", "cease"], dials=2), mc_pair(["openLo", "ka", "fault", "openBad"], dials=2)],
      nontrivial=lambda s, r: "damp" in s.get("tags", ()) or "nodamp" in s.get("tags", ()),
@@ -182,7 +185,8 @@ prop("C20",
 
 prop("C05",
      pure=["big", "deframe", "prefix"],
-     scripts=lambda tier, rnd: S.fuzz(rnd, 400 if tier == "thorough" else 50),
+     scripts=lambda tier, rnd: S.fuzz(rnd, 400 if tier == "thorough" else 50) + S.message_grid(rnd, 300 if tier == "thorough" else 60) +
+     S.notif_values(rnd, 120 if tier == "thorough" else 25),
      mc=lambda tier: [mc_pair(["openLo", "ka", "fault", "notif"], conns=2, msgs=2)],
      nontrivial=lambda s, r: True,
      end_oracles={"leak", "unclosed"},
